@@ -380,6 +380,38 @@ def run(tier: str, seed: int) -> Result:
       r0 = rng.random()
       if r0 < 0.2:
         old, diff, kind = hand_assembled(rng)
+      elif 0.3 <= r0 < 0.38:
+        # a sub-tree is MOVED (argument renamed / re-attached) or its holder REPLACED as a whole (another
+        # Buildable type cannot be aligned), while something strictly below it is only tagged or is re-used
+        leaf = fdl.Config(l2.Kb, p=rng.randint(0, 9))
+        mid = fdl.Config(l2.Ka, p=leaf, q=[rng.randint(0, 9)])
+        old = fdl.Config(l2.fd, x=mid, k=rng.randint(0, 5))
+        new = copy.deepcopy(old)
+        how = rng.randrange(3)
+        if how == 0:
+          sub = new.x
+          del new.x
+          new.z = sub                                            # moved
+          fdl.add_tag(sub.p, "p", rng.choice(l2.TAGS))            # tag-only change below the moved sub-tree
+          kind = "moved-subtree-tag-below"
+        elif how == 1:
+          child = new.x.p
+          new.x = fdl.Partial(l2.Ka, p=["no partner for the old child here"], q=[0])   # replaced as a whole
+          new.z = child                                          # the old child re-attached elsewhere
+          kind = "replaced-holder-child-reused"
+        else:
+          sub = new.x
+          del new.x
+          new.z = [sub]
+          fdl.add_tag(sub, "q", rng.choice(l2.TAGS))
+          fdl.add_tag(sub.p, "p", rng.choice(l2.TAGS))
+          sub.p.q = 5
+          kind = "moved-subtree-mixed-below"
+        try:
+          diff = diffing.build_diff(old, new)
+        except Exception as e:  # pylint: disable=broad-except
+          res.count("build_diff-raised:" + type(e).__name__)
+          continue
       elif r0 < 0.3:
         # new holds a chain of sub-configurations, each referenced twice (all become new shared values)
         fns = rng.sample([l2.fa, l2.fd, l2.fg, l2.Ka, l2.Kb, l2.Kc], rng.randint(3, 4))
